@@ -9,7 +9,9 @@ for seed in sorted(glob.glob(os.path.join(V, "seeded", "C*-*"))):
     name = os.path.basename(seed)
     prop = name.split("-")[0]
     t0 = time.time()
-    p = subprocess.run(["python3", os.path.join(V, "tools", "seedtest.py"), seed, prop],
+    meta = json.load(open(os.path.join(seed, "meta.json")))
+    checks = meta.get("checks") or [prop]      # "checks": other properties' checks that (also) catch it
+    p = subprocess.run(["python3", os.path.join(V, "tools", "seedtest.py"), seed] + checks,
                        capture_output=True, text=True, timeout=3600)
     out = p.stdout
     demo_u = [l for l in out.splitlines() if l.startswith("demo unchanged")]
@@ -17,12 +19,13 @@ for seed in sorted(glob.glob(os.path.join(V, "seeded", "C*-*"))):
     chk = [l for l in out.splitlines() if l.startswith("check ")]
     labels = [l.split("label:")[1].split(" partition:")[0].strip() for l in out.splitlines() if "label:" in l]
     rows.append((name, demo_u[0].split("exit=")[1][:6] if demo_u else "?", demo_p[0].split("exit=")[1][:6] if demo_p else "?",
-                 chk[0] if chk else "patch failed", sorted(set(labels))[:3], time.time() - t0))
+                 "; ".join(chk) if chk else "patch failed", sorted(set(labels))[:3], time.time() - t0,
+                 (meta.get("title") or "")[:110]))
     print(rows[-1]); sys.stdout.flush()
 with open(os.path.join(V, "seeded", "SWEEP.md"), "w") as f:
     f.write("# Sweep of all seeded changes against /repo HEAD %s (quick tier)\n\n" % head)
-    f.write("| seed | demo unchanged | demo patched | check | labels (first 3) | s |\n|---|---|---|---|---|---|\n")
+    f.write("| seed | change | demo unchanged | demo patched | check | labels (first 3) | s |\n|---|---|---|---|---|---|---|\n")
     for r in rows:
-        f.write("| %s | exit=%s | exit=%s | %s | %s | %d |\n" % (r[0], r[1], r[2], r[3], "; ".join("`%s`" % l for l in r[4]), r[5]))
+        f.write("| %s | %s | exit=%s | exit=%s | %s | %s | %d |\n" % (r[0], r[6].replace("|", "/"), r[1], r[2], r[3], "; ".join("`%s`" % l for l in r[4]), r[5]))
     caught = sum(1 for r in rows if "exit=1" in r[3])
     f.write("\n%d of %d seeded changes are reported as VIOLATION by the quick tier of their property's check.\n" % (caught, len(rows)))
